@@ -411,3 +411,5 @@ harness(prop="C07", target="geckolib.driver.protocol.packet:GeckoPacketProtocolH
         name="framed_packet_is_claimed_by_the_packet_consumer_only")(c04_wire.packet_framing_layout)
 harness(prop="C07", target="geckolib.driver.protocol.packet:GeckoPacketProtocolHandler.can_handle",
         name="frame_carrying_any_verb_goes_to_the_packet_consumer_only")(c04_wire.frame_carrying_any_verb_is_claimed_by_the_packet_handler_only)
+harness(prop="C07", target="geckolib.driver.protocol.statusblock:GeckoAsyncPartialStatusBlockProtocolHandler.can_handle",
+        name="truncated_or_foreign_verbs_are_accepted_by_nobody_else")(c04_wire.a_datagram_belongs_to_the_handler_of_its_leading_verb_only)
